@@ -99,7 +99,7 @@ func flatLen(sc *scenario) int {
 
 func genTidb(w *out.W, tier string) {
 	w.Exhaust = true
-	w.Rule = "the TiDB planner (mysql.Open on a go-sqlmock connection answering version 5.7.25-TiDB-v6.1.0; tidb.go PlanChanges = DetachCycles, flat, sort.SliceStable by priority, then the MySQL planner on each atomic change), judged by the reference catalogue on Plan.Changes[i].Source in statement order, planned twice from the same slice value. (a) exhaustive: every FK graph with self loops over n<=2 tables x every split created/dropped/modified x 4 readings x every order; (b) n=3: every graph x every split (quick: one pair in three), one seeded (reading, order) each, ModifyTables spiced (AddColumn behind the key changes, DropColumn in front, sub-changes shuffled); (c) the three tables s1.t1, s2.t1, s1.t2 (same name in two schemas), 1 case in 16 of the exhaustive family of stage schemas; (d) the generator of stage large (13..40 changes), 1 in 5; (e) wide: 11..40 created tables with FK chains + 2..5 modified tables with 2..6 sub-changes each (AddColumn, DropColumn, DropForeignKey, ModifyForeignKey, AddForeignKey to created and to kept tables) + 0..3 dropped tables, random order: more than 12 atomic changes, not in priority order; (f) narrow-deep: <=12 changes that flatten to 13..30 atomic changes (exact order tied: sort.SliceStable is stable). Up to 12 changes in the list the exact statement order is compared with the model, beyond (DetachCycles' sort.Slice is not stable) the multiset + replay verdict. exact:tidb-* = the oracle's verdict vs the conjectured exact exception (fails iff a ModifyForeignKey is re-pointed to a created table). Non-trivial = the planned order differs from the input order"
+	w.Rule = "the TiDB planner (mysql.Open on a go-sqlmock connection answering version 5.7.25-TiDB-v6.1.0; tidb.go PlanChanges = DetachCycles, flat, sort.SliceStable by priority, then the MySQL planner on each atomic change), judged by the reference catalogue on Plan.Changes[i].Source in statement order, planned twice from the same slice value. (a) exhaustive: every FK graph with self loops over n<=2 tables x every split created/dropped/modified x 4 readings x every order; (b) n=3: every graph x every split (quick: one pair in four), one seeded (reading, order) each, ModifyTables spiced (AddColumn behind the key changes, DropColumn in front, sub-changes shuffled); (c) the three tables s1.t1, s2.t1, s1.t2 (same name in two schemas), 1 case in 16 of the exhaustive family of stage schemas; (d) the generator of stage large (13..40 changes), 1 in 12; (e) wide: 11..40 created tables with FK chains + 2..5 modified tables with 2..6 sub-changes each (AddColumn, DropColumn, DropForeignKey, ModifyForeignKey, AddForeignKey to created and to kept tables) + 0..3 dropped tables, random order: more than 12 atomic changes, not in priority order; (f) narrow-deep: <=12 changes that flatten to 13..30 atomic changes (exact order tied: sort.SliceStable is stable). Up to 12 changes in the list the exact statement order is compared with the model, beyond (DetachCycles' sort.Slice is not stable) the multiset + replay verdict. exact:tidb-* = the oracle's verdict vs the exact exception C04_tidb_safe_exact (fails iff a ModifyForeignKey is re-pointed to a created table). Non-trivial = the planned order differs from the input order"
 	r := rng.FromEnv(0xC04D)
 	id := 0
 	// (a)
@@ -130,7 +130,7 @@ func genTidb(w *out.W, tier string) {
 			for split := 0; split < pow(3, n); split++ {
 				for k := 0; k < reps; k++ {
 					id++
-					if tier != "thorough" && id%3 != 0 { // quick: one (graph, split) pair in three
+					if tier != "thorough" && id%4 != 0 { // quick: one (graph, split) pair in four
 						continue
 					}
 					sc := mkScenario(n, rolesOf(n, split), adj, r.Intn(4), ps[r.Intn(len(ps))])
@@ -160,7 +160,7 @@ func genTidb(w *out.W, tier string) {
 	// (d)
 	genLarge(w, tier)
 	// (e), (f)
-	count := 1200
+	count := 500
 	if tier == "thorough" {
 		count = 40000
 	}
